@@ -376,26 +376,45 @@ theorem Inv.mono {d : Disc} {st st' : State} (h : Inv d st) (h1 : st'.simple = s
   · rw [h1]; exact h.simple.mono h3 h4
   · rw [h2]; exact h.full.mono h3 h4
 
-theorem inputCell_val {cfg : Cfg} (hcow : cfg.cow = true) (p : Bool) (n : Name) (v : Arr)
-    (a : Option Nat) : inputCell cfg p n v a = Cell.val v := by
-  cases a <;> simp [inputCell, hcow]
+theorem cow_byRef {cfg : Cfg} (hcow : cfg.cow = true) : cfg.byRef = false := by
+  unfold Cfg.cow at hcow
+  simp only [Bool.and_eq_true, Bool.not_eq_true'] at hcow
+  exact hcow.1
 
-theorem inputCellsAux_val {cfg : Cfg} (hcow : cfg.cow = true) (p : Bool) (ns : List Name)
-    (xs : List (Arr × Option Nat)) :
-    inputCellsAux cfg p ns xs = (xs.map (·.1)).map Cell.val := by
+theorem cow_snap {cfg : Cfg} (hcow : cfg.cow = true) : (cfg.pol.snap == Snap.pre) = true := by
+  unfold Cfg.cow at hcow
+  simp only [Bool.and_eq_true] at hcow
+  exact hcow.2
+
+/-- Under the copying policy the cell of an input is a private copy of the value `v` the array had
+    when the discipline was called, whatever the body wrote into the array since (`heap`). -/
+theorem inputCell_val {cfg : Cfg} (hcow : cfg.cow = true) (p : Bool) (heap : List Arr) (n : Name)
+    (v : Arr) (a : Option Nat) : inputCell cfg p heap n v a = Cell.val v := by
+  cases a with
+  | none => rfl
+  | some a =>
+    cases p <;> simp [inputCell, cow_byRef hcow, cow_snap hcow]
+
+theorem inputCellsAux_val {cfg : Cfg} (hcow : cfg.cow = true) (p : Bool) (heap : List Arr)
+    (ns : List Name) (xs : List (Arr × Option Nat)) :
+    inputCellsAux cfg p heap ns xs = (xs.map (·.1)).map Cell.val := by
   induction xs generalizing ns with
   | nil => rfl
   | cons x xs ih =>
     obtain ⟨v, a⟩ := x
     simp [inputCellsAux, inputCell_val hcow, ih]
 
-theorem inputCells_allVal {cfg : Cfg} (hcow : cfg.cow = true) (p : Bool)
-    (xs : List (Arr × Option Nat)) : AllVal (inputCells cfg p xs) := by
-  unfold inputCells; rw [inputCellsAux_val hcow]; exact allVal_map_val _
+theorem inputCells_eq {cfg : Cfg} (hcow : cfg.cow = true) (p : Bool) (heap : List Arr)
+    (xs : List (Arr × Option Nat)) : inputCells cfg p heap xs = (xs.map (·.1)).map Cell.val := by
+  unfold inputCells; exact inputCellsAux_val hcow _ _ _ _
 
-theorem inputCells_vals {cfg : Cfg} (hcow : cfg.cow = true) (p : Bool)
-    (xs : List (Arr × Option Nat)) : vals (inputCells cfg p xs) = xs.map (·.1) := by
-  unfold inputCells; rw [inputCellsAux_val hcow]; exact vals_map_val _
+theorem inputCells_allVal {cfg : Cfg} (hcow : cfg.cow = true) (p : Bool) (heap : List Arr)
+    (xs : List (Arr × Option Nat)) : AllVal (inputCells cfg p heap xs) := by
+  rw [inputCells_eq hcow]; exact allVal_map_val _
+
+theorem inputCells_vals {cfg : Cfg} (hcow : cfg.cow = true) (p : Bool) (heap : List Arr)
+    (xs : List (Arr × Option Nat)) : vals (inputCells cfg p heap xs) = xs.map (·.1) := by
+  rw [inputCells_eq hcow]; exact vals_map_val _
 
 /-- A non-empty answer of the cache is the private copy of the outputs of an input that the body was
     run on and that matches `x` with the cache tolerance. -/
@@ -572,26 +591,27 @@ theorem execMiss_post {cfg : Cfg} {d : Disc} {st : State} {xs : List (Arr × Opt
   have hinv2 : Inv d (missState cfg d st xs) :=
     hinv.mono m1 m2 (fun y hy => by rw [m3]; exact List.mem_append_left _ hy) m4
   have hx2 : xs.map (·.1) ∈ (missState cfg d st xs).runLog := by rw [m3]; simp
-  have hxc := inputCells_allVal hcow true xs
-  have hxv := inputCells_vals hcow true xs
+  have hxe := inputCells_eq hcow true (missState cfg d st xs).heap xs
+  have hxc : AllVal ((xs.map (·.1)).map Cell.val) := allVal_map_val _
+  have hxv : vals ((xs.map (·.1)).map Cell.val) = xs.map (·.1) := vals_map_val _
   have hinv3 : Inv d (cacheStoreOutputs cfg (missState cfg d st xs) (xs.map (·.1)) h
-      (inputCells cfg true xs) ((d.run (xs.map (·.1))).map Cell.val)) :=
+      ((xs.map (·.1)).map Cell.val) ((d.run (xs.map (·.1))).map Cell.val)) :=
     cacheStoreOutputs_inv hinv2 hxc hxv (allVal_map_val _) (vals_map_val _) hx2
   obtain ⟨f1, f2, f3, f4⟩ := cacheStoreOutputs_fields cfg (missState cfg d st xs) (xs.map (·.1)) h
-    (inputCells cfg true xs) ((d.run (xs.map (·.1))).map Cell.val)
+    ((xs.map (·.1)).map Cell.val) ((d.run (xs.map (·.1))).map Cell.val)
   unfold execMiss
-  simp only [hcow, if_true]
+  simp only [cow_byRef hcow, Bool.false_eq_true, if_false, hxe]
   by_cases hh : (cacheStoreOutputs cfg (missState cfg d st xs) (xs.map (·.1)) h
-      (inputCells cfg true xs) ((d.run (xs.map (·.1))).map Cell.val)).hasJac = true
+      ((xs.map (·.1)).map Cell.val) ((d.run (xs.map (·.1))).map Cell.val)).hasJac = true
   · simp only [hh, if_true]
     have hm : (missState cfg d st xs).hasJac = true := by rw [← f3]; exact hh
     obtain ⟨hd, hl⟩ := m5 hj0 hm
     obtain ⟨g1, g2, g3, g4⟩ := cacheStoreJac_fields cfg
       (cacheStoreOutputs cfg (missState cfg d st xs) (xs.map (·.1)) h
-        (inputCells cfg true xs) ((d.run (xs.map (·.1))).map Cell.val)) (xs.map (·.1)) h
-      (inputCells cfg true xs)
+        ((xs.map (·.1)).map Cell.val) ((d.run (xs.map (·.1))).map Cell.val)) (xs.map (·.1)) h
+      ((xs.map (·.1)).map Cell.val)
       (cacheStoreOutputs cfg (missState cfg d st xs) (xs.map (·.1)) h
-        (inputCells cfg true xs) ((d.run (xs.map (·.1))).map Cell.val)).dJac
+        ((xs.map (·.1)).map Cell.val) ((d.run (xs.map (·.1))).map Cell.val)).dJac
     refine ⟨?_, ?_, ?_⟩
     · apply cacheStoreJac_inv hinv3 hxc hxv
       · rw [f4, hd]; exact fun kb hkb => hkb
@@ -659,9 +679,10 @@ theorem linCompute_post {cfg : Cfg} {d : Disc} {st : State} {all : Bool}
   have g := cacheStoreJac_fields cfg
     { st with dJac := linJac cfg d all (xs.map (·.1)), nJac := st.nJac + 1,
               jacLog := st.jacLog ++ [xs.map (·.1)] }
-    (xs.map (·.1)) h (inputCells cfg false xs) (linJac cfg d all (xs.map (·.1)))
+    (xs.map (·.1)) h (inputCells cfg false st.heap xs) (linJac cfg d all (xs.map (·.1)))
   refine ⟨?_, Or.inr ⟨xs.map (·.1), ?_, cmp_refl _ _, hsub⟩⟩
-  · apply cacheStoreJac_inv _ (inputCells_allVal hcow false xs) (inputCells_vals hcow false xs) hsub
+  · apply cacheStoreJac_inv _ (inputCells_allVal hcow false st.heap xs)
+      (inputCells_vals hcow false st.heap xs) hsub
     · simp
     · exact hinv.mono rfl rfl (fun y hy => hy) (fun y hy => List.mem_append_left _ hy)
   · rw [g.2.1]; simp
